@@ -1,11 +1,15 @@
 """C15 - DHT store authorisation / authenticity / expiry.
 
-specs/DhtStore.tla is model checked by TLC (four focused configurations + one large one) and bound to the real
+specs/DhtStore.tla is model checked by TLC (six focused configurations + one large one) and bound to the real
 DHTCommunity / DHTDiscoveryCommunity code in three ways:
  R  every transition of the dumped state graphs (edge cover) and seeded `-simulate` behaviours of the large configuration
     are executed on a real node on harness/simnet.py: requests are real signed datagrams (ezr_pack) injected from chosen
     source addresses, maintenance runs are the real token_maintenance / value_maintenance, the clock is virtual; after
     every action Storage.items / token window / DHTDiscoveryCommunity.store are compared with the TLC state.
+    DhtStore_stale: versions x lifetimes x maintenance (the version gate on entries past their lifetime, not yet cleaned).
+    DhtStore_window: a 150 s clock, token age judged in seconds (Validity) and rotation done by the node's OWN
+    token_maintenance periodic task, which is left running: the driver only moves the clock and lets due timers fire;
+    "a maintenance run is due" is part of the compared projection.
  T  a network of real nodes with their real periodic tasks runs honest store_value / find_values traffic and attacker
     datagrams under the virtual clock; what one node received and how its storage changed is logged and validated by
     TLC against specs/DhtStoreTrace.tla.
@@ -33,6 +37,9 @@ UNIT = 1800.0            # seconds per clock unit of the model-checking configur
 BASE = 3600              # MAX_ENTRY_AGE (protocol constant, s)
 MAX_SIZE = 170           # MAX_ENTRY_SIZE
 T0 = vloop.EPOCH
+# configurations whose clock is finer than a lifetime unit: seconds per clock unit, and the period (in units) of the real
+# token_maintenance timer that such a replay leaves running (RotatePeriod of the cfg)
+TIMED = {"DhtStore_window.cfg": {"unit": 150.0, "period": 2}}
 ACTIONS = ("FindRequest", "RotateSecrets", "StoreRequest", "LocalStore", "Clean", "Tick", "Discover", "StorePeerRequest")
 
 
@@ -222,7 +229,7 @@ def vloop_loop():
 class Server:
     """One real DHT node (fresh per replay) with seven known nodes that are closer to the storage key than itself."""
 
-    def __init__(self, m, cls, periodic=False, key=None, addr=None, net=None, fillers=7):
+    def __init__(self, m, cls, periodic=False, key=None, addr=None, net=None, fillers=7, keep_tasks=()):
         from ipv8.dht.routing import Node as DhtNode
         from ..simnet import SimNet
         from .. import nodes
@@ -232,8 +239,15 @@ class Server:
         addr = addr or m.server_addr
         self.node = nodes.Node(self.net, key=key or m.server_key, ip=addr[0], port=addr[1])
         self.ov = self.node.add(cls)
-        if not periodic:
+        if not periodic and not keep_tasks:
             self.ov.cancel_all_pending_tasks()       # maintenance runs are driven as explicit actions
+        elif keep_tasks:
+            # timed replays: the named periodic tasks stay what the node registered (their timers are the subject)
+            for name in list(self.ov._pending_tasks):
+                if name not in keep_tasks:
+                    self.ov.cancel_pending_task(name)
+            if sorted(n for n in self.ov._pending_tasks if isinstance(n, str)) != sorted(keep_tasks):
+                raise MachineryError("node did not register the periodic tasks %r" % (keep_tasks,))
         self.DhtNode = DhtNode
         self.known_fillers = 0
         if fillers:
@@ -288,7 +302,7 @@ class Server:
         for st in ov.storages.values():
             for key, vals in st.items.items():
                 if key != target:
-                    if vals and target == self.m.target and unit == UNIT:
+                    if vals and target == self.m.target and unit != MS:
                         problems.append("values stored under a key nobody asked for")
                     continue
                 for v in vals:
@@ -325,9 +339,30 @@ def diff(spec, impl):
 class Replayer:
     """Executes labelled spec actions on a fresh real node and compares after every action."""
 
-    def __init__(self, ctx, m, cls, tag):
+    def __init__(self, ctx, m, cls, tag, unit=UNIT, period=0):
         self.ctx, self.m, self.cls, self.tag = ctx, m, cls, tag
+        self.unit, self.period = unit, period        # period > 0: the node's own token_maintenance timer rotates
         self.ops = 0
+        self.stray = set()
+
+    # -- timed replays: the driver moves the clock, the node's timer does the rotation
+    def timers_due(self, loop):
+        return [h for h in loop._scheduled if not h._cancelled and id(h) not in self.stray and h._when <= loop._vt + 1e-9]
+
+    def run_due(self, loop):
+        """let the loop run what is due now (timers that have expired, ready callbacks); the clock must not move"""
+        import asyncio
+        at = loop._vt
+
+        async def nop():
+            await asyncio.sleep(0)
+        for _ in range(3):
+            loop.run_until_complete(nop())
+            loop.settle()
+            if not self.timers_due(loop):
+                break
+        if loop._vt != at:
+            raise MachineryError("the virtual clock moved while due timers ran")
 
     def foreign_token(self, a, k):
         """a token another real node handed to the same requester"""
@@ -372,18 +407,25 @@ class Replayer:
         elif name == "StoreRequest":
             a, k, tok, batch = args
             token = self.token_bytes(srv, tok)
+            if sabotage == "expired-yield":
+                for st_ in ov.storages.values():      # a node whose version gate ignores entries past their lifetime
+                    st_.clean()
             if sabotage != "lose-request":
                 srv.send(m.addr[a], m.store_packet(k, token, [m.blob(v) for v in batch]))
         elif name == "StorePeerRequest":
             a, k, tok, t = args
             srv.send(m.addr[a], m.store_peer_packet(k, self.token_bytes(srv, tok), m.mid[t]))
         elif name == "RotateSecrets":
-            ov.token_maintenance()
+            if self.period:
+                if sabotage != "skip-rotation":
+                    self.run_due(loop)                # the node's periodic task, if its timer has expired
+            else:
+                ov.token_maintenance()
         elif name == "Clean":
             if sabotage != "skip-clean":
                 ov.value_maintenance()
         elif name == "Tick":
-            loop._vt = T0 + (before["clock"] + 1) * UNIT
+            loop._vt = T0 + (before["clock"] + 1) * self.unit
         elif name == "Discover":
             pk, addr = m.fillers[srv.known_fillers]
             srv.known_fillers += 1
@@ -411,15 +453,26 @@ class Replayer:
         from ipv8.dht import routing
         loop = vloop_loop()
         loop._vt = T0
-        srv = Server(self.m, self.cls)
+        if self.period:
+            loop.settle()
+            self.stray = {id(h) for h in loop._scheduled if not h._cancelled}     # left-overs of earlier replays (none expected)
+        srv = Server(self.m, self.cls, keep_tasks=("token_maintenance",) if self.period else (),
+                     fillers=steps[0][2]["closer"])
         keep, routing.NODE_LIMIT_INTERVAL = routing.NODE_LIMIT_INTERVAL, 0     # requests count as paced (see assumptions)
         try:
+            if self.period:
+                self.run_due(loop)                    # the periodic task starts its first sleep at T0
             if srv.closer() != steps[0][2]["closer"]:
                 raise MachineryError("harness geometry: %d closer nodes at start" % srv.closer())
             for i, (name, args, before, after) in enumerate(steps):
                 notes = self.apply(srv, name, args, before, sabotage if i == sabotage_at else None)
-                p = srv.project()
-                d = diff(spec_projection(after), p)
+                p = srv.project(unit=self.unit)
+                sp = spec_projection(after)
+                if self.period:
+                    # is a maintenance run of the real node due exactly when the specification says one is?
+                    p["rot_due"] = bool(self.timers_due(loop))
+                    sp["rot_due"] = after["clock"] - after["lastRot"] >= self.period
+                d = diff(sp, p)
                 if notes:
                     d["find_response"] = notes[0]
                 if name in ("StoreRequest", "Discover", "FindRequest") and srv.closer() != after["closer"]:
@@ -430,6 +483,8 @@ class Replayer:
         finally:
             routing.NODE_LIMIT_INTERVAL = keep
             srv.close()
+            if self.period:
+                loop.settle()                         # cancelled tasks take their timers with them
 
 
 def label(name, args):
@@ -623,15 +678,27 @@ def shortest_steps(g, ei):
 def report(ctx, cls, cfgname, steps, bad):
     i, name, d = bad
     labels = [label(n, a) for n, a, _b, _a in steps[:i + 1]]
+    hint = ""
+    if "rot_due" in d:
+        at = steps[i][3]["clock"] * TIMED.get(cfgname, {}).get("unit", UNIT)
+        hint = " (%d s after start-up, %d s after the last token_maintenance run: the node's maintenance timer is %s; " \
+               "a secret must leave the window within TOKEN_EXPIRATION_TIME of the tokens made with it)" % (
+                   at, at - steps[i][3]["lastRot"] * TIMED.get(cfgname, {}).get("unit", UNIT),
+                   "due although none is scheduled by the specification" if d["rot_due"]["impl"] else "not due")
     ctx.violation(signature_of(name, steps[i][1], d),
-                  "real %s diverges from DhtStore.tla after %s: %s" % (cls.__name__, labels[-1], d),
+                  "real %s diverges from DhtStore.tla after %s: %s%s" % (cls.__name__, labels[-1], d, hint),
                   {"cfg": cfgname, "overlay": cls.__name__, "actions": labels,
                    "steps": [[n, a] for n, a, _b, _a in steps[:i + 1]], "diff": d})
 
 
+def replayer_for(ctx, m, cls, cfgname, tag):
+    t = TIMED.get(os.path.basename(cfgname), {})
+    return Replayer(ctx, m, cls, tag, unit=t.get("unit", UNIT), period=t.get("period", 0))
+
+
 def replay_graph(ctx, m, g, cfgname, cls, max_ops):
     tag = cfgname[len("DhtStore_"):-4]
-    rp = Replayer(ctx, m, cls, tag)
+    rp = replayer_for(ctx, m, cls, cfgname, tag)
     covered = set()
     nwalks = 0
     for _init, walk in cover(g, ctx.seed, max_ops):
@@ -905,6 +972,7 @@ class Scenario:
         self.by_addr = {}
         self.lookups = []
         self.captured = []        # honest serialized values seen on the wire (replay material for the attacker)
+        self.captured_at = {}     # ... and the storage key each of them was sent to
         self.book = {}            # attacker's tokens: (node name, a, k) -> [(time, token)]
         self.counts = {}
         self._spy()
@@ -1003,6 +1071,11 @@ class Scenario:
         if kind == "aging":
             mid = [t for ts, t in mine if 200 < now - ts <= 640]
             return mid[-1] if mid else None
+        if kind in ("late", "very-late"):
+            # just outside the validity window: handed out more than one / one and a half windows ago
+            lo, hi = (600, 900) if kind == "late" else (900, 1300)
+            out = [t for ts, t in mine if lo < now - ts <= hi]
+            return self.rng.choice(out) if out else None
         if kind == "other-addr":
             o = self.book.get((name, "A2" if a == "A1" else "A1", k), [])
             return o[-1][1] if o else None
@@ -1043,8 +1116,24 @@ class Scenario:
         targets = [("V", self.V), ("V", self.V), ("V", self.V), ("N1", self.nears[0]), ("N2", self.nears[1])]
         name, node = r.choice(targets)
         a, k = r.choice(["A1", "A2"]), r.choice(["K1", "K2"])
-        op = r.choice(["find", "store", "store", "store", "store", "peer", "badsig", "refresh-own"])
+        op = r.choice(["find", "store", "store", "store", "store", "peer", "badsig", "refresh-own", "replay-old"])
         key = r.choice([m.target, m.target, self.key2])
+        if op == "replay-old":
+            # the oldest captured value of some signer, under the key it was stored under, with a fresh token: must never
+            # displace a newer version the node holds (whatever the age of that entry)
+            signed = [(b, kk) for b, kk in self.captured_at.items() if m.describe(b)["s"] != "none"]
+            if not signed:
+                return
+            blob, bkey = r.choice(signed)
+            sig = m.describe(blob)["s"]
+            blob = min((b for b in self.captured if m.describe(b)["s"] == sig and self.captured_at[b] == bkey),
+                       key=lambda b: m.describe(b)["ver"])
+            token = await self.att_find(node, a, k, name)
+            if token:
+                await asyncio.sleep(1.0)
+                self.count("attacker-store:fresh:replay-old")
+                self.net.deliver(self.net.inject(m.addr[a], node.node.address, m.store_packet(k, token, [blob], target=bkey)))
+            return
         if op == "refresh-own":
             # replay the newest captured value of the signer whose key hash is the storage key, with a fresh token
             own = [b for b in self.captured if m.describe(b)["s"] == "S1"]
@@ -1058,7 +1147,14 @@ class Scenario:
             await self.att_find(node, a, k, name)
             return
         tk = r.choice(["fresh", "fresh", "fresh", "aging", "stale", "other-addr", "other-key", "foreign", "junk",
-                       "port-alias", "port-alias", "mask-alias", "mask-alias"])
+                       "port-alias", "port-alias", "mask-alias", "mask-alias", "late", "late", "very-late"])
+        if tk in ("late", "very-late"):
+            # any requester identity that holds a token of that age for this node
+            lo, hi = (600, 900) if tk == "late" else (900, 1300)
+            have = sorted((a2, k2) for (n2, a2, k2), lst in self.book.items()
+                          if n2 == name and any(lo < self.loop.time() - ts <= hi for ts, _t in lst))
+            if have:
+                a, k = r.choice(have)
         src = m.addr[a]
         if tk in ("fresh", "port-alias", "mask-alias"):
             token = await self.att_find(node, a, k, name)
@@ -1126,9 +1222,11 @@ class Scenario:
         for d in self.net.wire[self._sniffed:]:
             if d.sender is not None and len(d.data) > 23 and d.data[22] == S.msg_id and d.data[:22] == self.V.ov.get_prefix():
                 try:
-                    for b in self.m.decode(d.data, S)[1].values:
+                    pl = self.m.decode(d.data, S)[1]
+                    for b in pl.values:
                         if b not in self.captured and b not in self.m.sym:
                             self.captured.append(b)
+                            self.captured_at[b] = pl.target
                 except Exception:  # noqa: BLE001
                     pass
         self._sniffed = len(self.net.wire)
@@ -1219,6 +1317,8 @@ def judge_traces(ctx, traces, tag, r, scenario=None):
         last = r.error_trace[-1][1] if r.error_trace else {}
         tid, l = last.get("tid"), last.get("l")
         tr = traces[tid - 1] if isinstance(tid, int) else None
+        if r.violated != "TraceAccepted" and isinstance(l, int):
+            l -= 1                            # a state invariant fails in the state the offending event produced
         ev = tr["events"][l - 1] if tr and isinstance(l, int) and 0 < l <= len(tr["events"]) else None
         what = r.violated if r.violated != "TraceAccepted" else "event not allowed by the specification"
         sig = "trace:%s:%s" % (r.violated, ev["ev"] if ev else "?")
@@ -1229,6 +1329,13 @@ def judge_traces(ctx, traces, tag, r, scenario=None):
             desc += "; event %s at t=%s ms: node holds %s, specification state before the event %s" % (
                 {k: v for k, v in ev.items() if k not in ("st", "problems")}, ev["t"],
                 [(x["v"]["s"], x["v"]["ver"], x["exp"]) for x in ev["st"]], [(dict(v)["s"], dict(v)["ver"], e) for v, e in spec_st])
+        if ev is not None and r.violated != "TraceAccepted":
+            desc += "; event %s at t=%s ms" % ({k: v for k, v in ev.items() if k not in ("st", "problems")}, ev["t"])
+            if "tok" in ev and ev["tok"].get("kind") == "own":
+                handed = [e["t"] for e in tr["events"][:l - 1] if e["ev"] == "find" and (e["a"], e["k"]) == (ev["tok"]["a"], ev["tok"]["k"])]
+                if handed:
+                    desc += "; this requester was last handed a token %.1f s before (validity window %d s)" % (
+                        (ev["t"] - handed[-1]) / 1000.0, 600)
         ctx.violation(sig, desc, {"scenario": scenario, "trace_node": tr and tr["node"], "key": tr and tr["key"], "event_index": l, "event": ev,
                                   "events_before": tr["events"][max(0, l - 6):l - 1] if tr and isinstance(l, int) else None})
     else:
@@ -1285,6 +1392,60 @@ def corrupt_unauthorised_store(traces):
     raise MachineryError("no store with a foreign token recorded: scenario too short")
 
 
+def synthetic_histories():
+    """Hand-written histories in the recorded format, in pairs: a node that behaves (must be accepted) and the same
+    history with one deviation (must be rejected, for the stated reason).  They pin down what DhtStoreTrace.tla decides
+    about time: the validity window of a token and the version gate for entries past their lifetime."""
+    uv = {"s": "none", "ver": 0, "d": "78", "ok": True, "sz": "small"}
+    tok = {"a": "h:1", "k": "k1", "ep": 1, "kind": "own"}
+
+    def ev(kind, t, st, nsecrets, **kw):
+        return dict(kw, ev=kind, t=t, st=st, nsecrets=nsecrets, problems=[])
+
+    def window(age_ms):
+        # token handed out at 1 s under the first secret; the node's second maintenance run is late, so that secret still
+        # opens the gate when the token is presented
+        at = 1000 + age_ms
+        return [ev("find", 1000, [], 1, a="h:1", k="k1"), ev("rotate", 300000, [], 2),
+                ev("store", at, [{"v": uv, "exp": at + 3600000}], 2, a="h:1", k="k1", tok=tok, b=[uv], closer=0)]
+
+    def sv(ver):
+        return {"s": "S2", "ver": ver, "d": "61", "ok": True, "sz": "small"}
+
+    def stale(yields):
+        # S2's version 7 stored with an 1800 s lifetime, no maintenance run; 2000 s later somebody with a fresh token
+        # stores S2's version 5
+        first = [{"v": sv(7), "exp": 2000 + 1800000}]
+        after = [{"v": sv(5), "exp": 2002000 + 1800000}] if yields else first
+        return [ev("find", 1000, [], 1, a="h:1", k="k1"),
+                ev("store", 2000, first, 1, a="h:1", k="k1", tok=tok, b=[sv(7)], closer=8),
+                ev("find", 2001000, first, 1, a="h:1", k="k1"),
+                ev("store", 2002000, after, 1, a="h:1", k="k1", tok=tok, b=[sv(5)], closer=8)]
+
+    def wrap(events):
+        return [{"node": "synthetic", "key": "", "events": events}]
+    return {"window_ok": wrap(window(599000)), "window_bad": wrap(window(601000)),
+            "stale_ok": wrap(stale(False)), "stale_bad": wrap(stale(True))}
+
+
+def find_yield_edge(g):
+    """a store request that presents an older version of a signer whose stored newer version is past its lifetime and not
+    yet cleaned (the specification leaves the storage as it is)"""
+    for sid, st in g.states.items():
+        old = {e["v"]["s"]: e["v"]["ver"] for e in st["storage"] if st["clock"] > e["exp"]}
+        if not old:
+            continue
+        for ei in g.out.get(sid, ()):
+            if g.edges.name(ei) != "StoreRequest" or g.edges.dst[ei] != sid:
+                continue
+            _s, _n, args, _d = g.edges[ei]
+            a, k, tok, batch = args
+            if tok["kind"] == "own" and len(batch) == 1 and batch[0]["s"] in old and batch[0]["ver"] < old[batch[0]["s"]] \
+                    and batch[0]["ok"]:
+                return ei
+    raise MachineryError("DhtStore_stale: no store of an older version onto an expired newer one in the graph")
+
+
 def follow(g, steps_json):
     """recorded [name, args] list -> steps with the states of graph g (for --replay)"""
     from ..common import jsonable
@@ -1305,9 +1466,14 @@ def follow(g, steps_json):
 GRAPHS = (("DhtStore_tokens.cfg", "disc", ("FindRequest", "RotateSecrets", "StoreRequest", "StorePeerRequest", "Clean")),
           ("DhtStore_versions.cfg", "dht", ("FindRequest", "StoreRequest", "Clean", "Tick")),
           ("DhtStore_expiry.cfg", "dht", ("FindRequest", "StoreRequest", "LocalStore", "Clean", "Tick", "Discover")),
-          ("DhtStore_limits.cfg", "dht", ("FindRequest", "StoreRequest", "Clean", "Tick")))
+          ("DhtStore_limits.cfg", "dht", ("FindRequest", "StoreRequest", "Clean", "Tick")),
+          # versions x lifetimes x maintenance: what the version gate does with entries that are past their lifetime but
+          # not yet cleaned, and with entries that were refreshed, cleaned and stored again
+          ("DhtStore_stale.cfg", "dht", ("FindRequest", "StoreRequest", "Clean", "Tick")),
+          # tokens x wall clock: the node's own token_maintenance timer (left running) against the validity window
+          ("DhtStore_window.cfg", "dht", ("FindRequest", "RotateSecrets", "StoreRequest", "Clean", "Tick")))
 BUDGET = {"quick": {"DhtStore_tokens.cfg": 8000, "DhtStore_versions.cfg": 4000, "DhtStore_expiry.cfg": 6000,
-                    "DhtStore_limits.cfg": 3000}}
+                    "DhtStore_limits.cfg": 3000, "DhtStore_stale.cfg": 4000, "DhtStore_window.cfg": 3000}}
 
 
 def run(tier, seed, replay=None):
@@ -1331,7 +1497,8 @@ def _run(ctx, tier, seed, replay):
     ctx.cov["rule"] = (
         "R: every transition of the TLC state graphs of DhtStore.tla (tokens x requesters incl. same-key aliases of an address "
         "that share its node id (other port / IP bits the id masks away) x rotations; versions x signers x "
-        "forgeries; lifetimes x clock x maintenance; size/count limits) is executed on a real node (quick: seeded sample of "
+        "forgeries; lifetimes x clock x maintenance; size/count limits; versions x expired-not-yet-cleaned entries; token age in "
+        "seconds x the node's own maintenance timer) is executed on a real node (quick: seeded sample of "
         "the transitions, thorough: complete edge cover + simulated behaviours of the large configuration) and Storage / "
         "token window / peer table compared with the TLC state; T: recorded histories of three real nodes in a 15-node "
         "network with real timers validated event by event by TLC; E: every value list a lookup can receive (TLC "
@@ -1346,7 +1513,9 @@ def _run(ctx, tier, seed, replay):
         "closer to the key than the node is recomputed by the harness",
         "a malformed value that makes unserialize_value raise (truncated, unknown key format) aborts the request/lookup; "
         "robustness against such input is property C03's subject and is not explored here",
-        "one storage key per replayed node (per-key lists are independent); two keys in the recorded runs"]
+        "one storage key per replayed node (per-key lists are independent); two keys in the recorded runs",
+        "validity window of a store token = TOKEN_EXPIRATION_TIME = 600 s after it was handed out (protocol constant, written "
+        "into the specification, not read from the code); timers of the virtual-time loop fire exactly when due"]
     phases, t_phase = {}, [vloop._REAL_TIME()]
 
     def phase(name):
@@ -1397,7 +1566,7 @@ def _run(ctx, tier, seed, replay):
             g = parse_dot(dot)
             steps = follow(g, rec["steps"])
             cls = classes["disc" if rec["overlay"] == "DHTDiscoveryCommunity" else "dht"]
-            bad = Replayer(ctx, m, cls, "replay").run(steps)
+            bad = replayer_for(ctx, m, cls, rec["cfg"], "replay").run(steps)
             ctx.sample({"replayed_behaviour": [label(n, a) for n, a, _b, _a in steps]})
             ctx.add_tlc("replay", r)
             if bad:
@@ -1409,6 +1578,9 @@ def _run(ctx, tier, seed, replay):
         jobs = {c: pool.submit(model, c) for c, _k, _a in GRAPHS}
         ctl_clean = pool.submit(model, "DhtStore_expiry.cfg", False, CleanAll="FALSE")
         ctl_window = pool.submit(model, "DhtStore_tokens.cfg", False, KeepSecrets="3")
+        ctl_yield = pool.submit(model, "DhtStore_stale.cfg", False, ExpiredYields="TRUE")
+        ctl_period = pool.submit(model, "DhtStore_window.cfg", False, RotatePeriod="4")
+        ctl_notimer = pool.submit(model, "DhtStore_window.cfg", False, RotatePeriod="0")
         lk_cfgs = ["DhtLookup_quick.cfg"] if quick else ["DhtLookup_thorough.cfg", "DhtLookup_len4.cfg"]
 
         def lookup_model(cfgname):
@@ -1444,6 +1616,9 @@ def _run(ctx, tier, seed, replay):
                   ("lookup reporting data of an unverifiable signature is rejected", pool.submit(tlc_lookups, [bad1], "ctl3", tmp)),
                   ("lookup reporting an older verified version is rejected", pool.submit(tlc_lookups, [bad2], "ctl4", tmp))]
 
+        syn = synthetic_histories()
+        s_jobs = {name: pool.submit(tlc_traces, tr, "syn-" + name, tmp, ctx.eq) for name, tr in syn.items()}
+
         # ---- R: graphs
         graphs = {}
         for cfgname, kind, acts in GRAPHS:
@@ -1474,6 +1649,20 @@ def _run(ctx, tier, seed, replay):
         steps = shortest_steps(g, e2)
         bad = Replayer(ctx, m, DHTCommunity, "ctl").run(steps, sabotage_at=len(steps) - 1, sabotage="skip-clean")
         ctx.control("replay in which maintenance is skipped where the specification removes expired values is flagged", bool(bad))
+        g = graphs["DhtStore_window.cfg"]
+        e3 = next(i for i in range(len(g.edges)) if g.edges.name(i) == "RotateSecrets" and len(g.states[g.edges.src[i]]["secrets"]) == 2)
+        steps = shortest_steps(g, e3)
+        bad = replayer_for(ctx, m, DHTCommunity, "DhtStore_window.cfg", "ctl").run(steps, sabotage_at=len(steps) - 1,
+                                                                                    sabotage="skip-rotation")
+        ctx.control("replay in which the node's maintenance timer does not fire when the specification rotates the secrets is flagged",
+                    bool(bad))
+        g = graphs["DhtStore_stale.cfg"]
+        steps = shortest_steps(g, find_yield_edge(g))
+        ok_run = Replayer(ctx, m, DHTCommunity, "ctl").run(steps)
+        bad = Replayer(ctx, m, DHTCommunity, "ctl").run(steps, sabotage_at=len(steps) - 1, sabotage="expired-yield")
+        ctx.control("replay in which an expired, not yet cleaned newer version yields to an older one is flagged",
+                    bool(bad) and bad[0] == len(steps) - 1 and (ok_run is None or bool(ctx.violations)))
+        ctx.sample({"cfg": "DhtStore_stale.cfg", "older_version_onto_expired_newer": [label(n, a) for n, a, _b, _a in steps]})
         ctx.violations[:] = keep
 
         # ---- spec-level negative controls
@@ -1483,6 +1672,15 @@ def _run(ctx, tier, seed, replay):
         r, _ = ctl_window.result()
         ctx.control("specification with a three-slot secret window violates the two-rotation validity bound",
                     r.violated in ("StoreNeedsOwnFreshToken", "WindowIsTwoNewest", "StorePeerOnlyOwnMid"))
+        r, _ = ctl_yield.result()
+        ctx.control("specification in which an expired, not yet cleaned entry yields to any version violates NoDowngrade",
+                    r.violated == "NoDowngrade")
+        r, _ = ctl_period.result()
+        ctx.control("specification whose maintenance timer has the period of the whole validity window honours tokens past the window",
+                    r.violated == "StoreNeedsOwnFreshToken")
+        r, _ = ctl_notimer.result()
+        ctx.control("specification in which rotation is not tied to the clock honours tokens past the window",
+                    r.violated == "StoreNeedsOwnFreshToken")
 
         # ---- R: simulated behaviours of the large configuration
         if not quick and len(ctx.violations) < 3:
@@ -1508,6 +1706,14 @@ def _run(ctx, tier, seed, replay):
             judge_lookups(ctx, lks, tag, j.result(), {"seed": sc.seed, "duration": sc.duration, "light": sc.light})
         for name, j in c_jobs:
             ctx.control(name, not j.result().ok)
+        res = {name: j.result() for name, j in s_jobs.items()}
+        for name in ("window_ok", "stale_ok"):
+            if not res[name].ok:
+                raise MachineryError("DhtStoreTrace rejects the well-behaved synthetic history %s: %s" % (name, res[name].violated))
+        ctx.control("history in which a token is honoured 601 s after it was handed out is rejected (599 s is accepted)",
+                    res["window_bad"].violated == "StoreNeedsOwnFreshToken")
+        ctx.control("history in which an older version replaces an expired, not yet cleaned newer one is rejected",
+                    res["stale_bad"].violated == "TraceAccepted")
         if scen:
             tr = scen[0][1][0]
             ctx.sample({"recorded_history": {"node": tr["node"], "events": [
